@@ -273,6 +273,7 @@ func runC32(args []string) {
 	emit(c32Case{trust: true, entries: []string{"0.0.0.0/0"}, reqs: std}, 10)
 	emit(c32Case{trust: true, entries: []string{"2001:db8::/32", "10.0.0.0/08"}, reqs: std}, 11)
 	emit(c32Case{trust: true, entries: []string{"::ffff:10.0.0.0/90", "010.0.0.0/8", "10.0.0.0/+8"}, reqs: std}, 12)
+	// bare addresses are not CIDRs (appended after the settings cases to keep earlier case numbers)
 
 	// ---- directed settings cases (configuration glue) ----
 	sp := func(s string) *string { return &s }
@@ -287,6 +288,9 @@ func runC32(args []string) {
 	emit(c32Case{settings: &c32Settings{cliTrust: bp(false), envTrust: sp("T"), cliList: sp("not-a-cidr, 10.0.0.0/8")}, reqs: std}, 19)
 	emit(c32Case{settings: &c32Settings{cliTrust: bp(true), envTrust: sp("no"), envList: sp("10.0.0.0/8")}, reqs: std}, 20)
 	emit(c32Case{settings: &c32Settings{cliList: sp("10.0.0.0/8")}, reqs: std}, 21)
+	bare := append([]c32Req{}, std...)
+	bare = append(bare, xf("[2001:db8::5]:443", false, nil, one("198.51.100.7"), one("https")), xf("[2001:db8::1]:443", false, nil, one("198.51.100.7"), nil))
+	emit(c32Case{trust: true, entries: []string{"10.1.2.3", "2001:db8::1", "192.0.2.5"}, reqs: bare}, 22)
 
 	// ---- generated cases ----
 	for c := 0; c < f.Cases; c++ {
